@@ -25,7 +25,7 @@ func init() {
 	register("C02", &propDef{
 		Title:           "Pack followed by Unpack reproduces the source tree",
 		ConfigSensitive: true,
-		Rules:           []func(*Checker){ruleC02Kinds, ruleMaterialise("C02.materialise"), ruleRestore("C02.restore"), ruleC02Fields, ruleMeta("C02.meta"), ruleC02Omit},
+		Rules:           []func(*Checker){ruleC02Kinds, ruleMaterialise("C02.materialise"), ruleRestore("C02.restore"), ruleC02Fields, ruleMeta("C02.meta"), ruleC02Omit, ruleC04Accept2("C02.links"), aliasRule(ruleC05Link, "C05.link", "C02.linkkept", 2)},
 		NotDecided: []string{
 			"round-trip equality itself: tar rounding of mtimes, PAX name handling, Perm() arithmetic, content bytes",
 			"link-target equivalence under filepath.ToSlash",
